@@ -135,6 +135,8 @@ EvBounceEnq ==
                         \cup Flag("C13_Addressing", E.to_ok /\ E.sender_empty)
                         \cup Flag("C13_NoNullBounce", Q.sender[E.id] = 1)
                         \cup Flag("C13_NoLoop", ~Q.isb[E.id])
+                        \* handed to the queue that was configured for bounces (the queue itself when none was)
+                        \cup Flag("C13_ConfiguredQueue", E.via = E.want)
                         \cup Flag("C13_Content", E.quotes_reply /\ E.has_headers /\ E.names /\ (E.headers_only \/ E.has_body))
 
 (* ------------------------------------------------------------------ flush, clock *)
